@@ -70,6 +70,12 @@ def catalogue_full():
         cat.append(G.shape_enumeration(3, 8, pos))
         cat.append(G.shape_enumeration(0, 4, pos, align=False))
         cat.append(G.shape_enumeration(2, 12, pos, align=True, endian='little'))
+    for dec in G.DECORATORS:
+        for prefix in (False, True):
+            cat.append(G.shape_register('b', (5, 3), 'suffix', decorator=(dec, prefix)))
+    cat.append(G.shape_indirect_register('sp', (5, 3), 'suffix', decorator=('plus_plus', False)))
+    cat.append(G.shape_indirect_register('sp', (5, 3), 'prefix', offset=8, decorator=('minus_minus', True)))
+    cat.append(G.shape_indirect_register('x', (2, 2), 'suffix', offset=8, decorator=('at', False)))
     for w in (8, 12, 16, 24):
         for e in (None, 'little'):
             cat.append(G.shape_address(w, True, e))
